@@ -1,0 +1,10 @@
+//go:build verif
+
+// Contracts for the deductive verifier in /verif (comment-only; compiled only with -tags verif).
+package v1
+
+//@ func Params.Validate
+//@   property C16
+//@   returns err
+//@   ensures valid: err == nil ==> paramsOK(p)
+//@ end
